@@ -77,4 +77,16 @@ func init() {
 		Gen: genC15, Exec: execC15,
 		Assumes: []string{"what an engine reads once at construction (theme.yml, data/*.yml, the set of component names) is held fixed within a history", "equal-mtime edits as the cache sees them and zero mtimes are excluded from the freshness claim, as the cache documents", "a render during which an injected fs fault fired is not itself compared (the statement is silent about it); the renders after it are"},
 	})
+	register(&Driver{
+		ID: "C11", Level: "exploration",
+		Rule: "run index selects the family: (a) include digraphs over {page, CompA, CompB} enumerated (512 graphs x 4 edge styles: plain / data-bounded v-if / inside v-for / through a slot) then 4-node graphs with mixed styles incl. shorthand tags, every entry point, map/struct/pointer data, recursion depth 0-4; (b) layout graphs: self reference, 2- and 3-cycles, missing target, chains of 5..130, page as its own layout, self-referencing base layout; (c) slot content reused at several <slot> positions and inside loops; (d) hostile typed data in directive positions; (e) runs of every other workload family (C10 histories and C16 histories with added fs/writer/context/reader faults, C12 fault grids, C15 edit histories, C17 stack histories) on which only the crash monitors are evaluated. Oracle: the worker survives, no panic reaches the caller, the call returns within the kernel step budget, an unconditional include/layout cycle returns an error. distinct = distinct (family, entry class, outcome kind)",
+		Runs: func(tier string) int {
+			if tier == "thorough" {
+				return 60000
+			}
+			return 6000
+		},
+		Gen: genC11, Exec: execC11,
+		Assumes: []string{"only crash, panic, non-return and unreported unconditional cycles are violations; data-bounded recursion may return output or an error", "robustness against arbitrary byte strings as templates and arbitrary typed data is input fuzzing and is not claimed", "non-return is decided by a kernel step budget three orders above the largest legitimate run, not by wall-clock"},
+	})
 }
